@@ -277,3 +277,63 @@ func ZZ_C18_HTTPTwoConnections() {
 	verifAssert(ua.got[0] == pa[0] && ua.got[1] == pa[1] && ua.got[2] == pa[2], "unmodified: nothing another connection sent in the meantime replaces them")
 	verifCover("both-served")
 }
+
+// The credential gate is per request, with no memory: on a server that has
+// already served any history of accepted and refused requests (each on its own
+// connection), a request is proxied only if the auth function accepted the
+// credentials THIS request presented - a variant of previously accepted
+// credentials (other letter case in the base64 text, another scheme spelling,
+// another header) is judged on its own.
+//
+//verif:harness kind=api replay=native+sched unwind=400 preempt=0 bound=requests<=2(quick)/3(thorough)-on-separate-connections,6-credential-forms
+func ZZ_C18_HTTPCredentialsPerRequest() {
+	hy := &zzHy{gated: true}
+	s := &Server{HyClient: hy, AuthRealm: "r"}
+	asked := 0
+	s.AuthFunc = func(u, p string) bool {
+		asked++
+		ok := u == "u" && p == "p"
+		if ok {
+			hy.accepted = true
+		}
+		return ok
+	}
+	n := 2
+	if verifThorough() {
+		n = 3
+	}
+	for i := 0; i < n; i++ {
+		hy.accepted = false // the verdict on THIS request's credentials
+		dialsBefore := hy.tcp
+		head := "CONNECT example.com:443 HTTP/1.1\r\nHost: example.com:443\r\n"
+		good := false
+		switch verifChoice("credentials", 6) {
+		case 0:
+		case 1:
+			head += "Proxy-Authorization: Basic dTpw\r\n"
+			good = true
+		case 2:
+			head += "Proxy-Authorization: BASIC dTpw\r\n"
+			good = true
+		case 3:
+			head += "Proxy-Authorization: Basic DTPW\r\n" // other letter case: other bytes
+		case 4:
+			head += "Proxy-Authorization: Basic dTpW\r\n"
+		case 5:
+			head += "Proxy-Authorization: Basic dTp4\r\n"
+		}
+		c := &zzConn{segs: [][]byte{[]byte(head + "\r\n")}}
+		s.dispatch(c)
+		verifQuiesce()
+		verifAssert(hy.accepted == good, "the auth function accepts exactly the configured credentials")
+		if good {
+			verifCover("proxied")
+			verifAssert(hy.tcp == dialsBefore+1, "accepted credentials: the destination is dialled")
+		} else {
+			verifCover("refused")
+			verifAssert(hy.tcp == dialsBefore, "nothing is dialled for a request whose own credentials were not accepted")
+			verifAssert(len(c.out) >= 4 && c.out[1] == '4' && c.out[2] == '0' && c.out[3] == '7', "the client is told that proxy authentication is required")
+		}
+	}
+	_ = asked
+}
